@@ -137,10 +137,11 @@ def allocate (c : Cfg) (e : Env) : Env × Option (List Nat) :=
     ({ e with nAlloc := k + 1, log := .alloc true :: e.log }, some a)
 
 /-- `adder.Pin`: replicate-everywhere pins carry no allocations -/
+def sentPin (p : Pin) : Pin := if p.opts.rmin < 0 then { p with allocs := [] } else p
+
 def pinCall (c : Cfg) (e : Env) (p : Pin) : Env × Bool :=
-  let p' : Pin := if p.opts.rmin < 0 then { p with allocs := [] } else p
   let ok := !c.pfail.contains e.nPin
-  ({ e with nPin := e.nPin + 1, log := .pin p' ok :: e.log, pins := e.pins ++ [(p', ok)] }, ok)
+  ({ e with nPin := e.nPin + 1, log := .pin (sentPin p) ok :: e.log, pins := e.pins ++ [(sentPin p, ok)] }, ok)
 
 /-- the options the DAG services work with (`opts.Mode = api.PinModeRecursive`) -/
 def workOpts (c : Cfg) : Opts := { c.opts with mode := .recursive }
@@ -273,23 +274,30 @@ def shardPin (c : Cfg) (root : Nat) (k : Cur) (n : Nat) (prev : Option Nat) (nno
     depth := if indirectGuard nnodes k.blocks.length then Gen.depthIndirect else Gen.depthDirect,
     allocs := k.allocs, ref := prev }
 
+def rootOf (nodes : List Node) : Nat :=
+  match nodes with
+  | n :: _ => n.id
+  | [] => 0
+
+def flushNodes (s : ShSt) (k : Cur) : List Node := makeDAG s.env.named (k.blocks.map (·.id))
+
+def flushPin (c : Cfg) (s : ShSt) (k : Cur) : Pin :=
+  shardPin c (rootOf (flushNodes s k)) k s.shards.length s.prev (flushNodes s k).length
+
+/-- the shard record a successful flush appends -/
+def flushRec (c : Cfg) (s : ShSt) (k : Cur) : ShardRec :=
+  { pin := sentPin (flushPin c s k), blocks := k.blocks, allocs := k.allocs, nnodes := (flushNodes s k).length }
+
 /-- `shard.Flush` + the bookkeeping of `flushCurrentShard`. A failed flush leaves the shard
     current (with the destinations that are left). -/
 def flush (c : Cfg) (s : ShSt) (k : Cur) : ShSt × Status :=
-  let nodes := makeDAG s.env.named (k.blocks.map (·.id))
-  let root := match nodes with
-    | n :: _ => n.id
-    | [] => 0
-  match putMany c s.env k.dests nodes with
+  match putMany c s.env k.dests (flushNodes s k) with
   | (e1, d1, false) => ({ s with env := e1, cur := some { k with dests := d1 } }, .fail)
   | (e1, d1, true) =>
-    let pin := shardPin c root k s.shards.length s.prev nodes.length
-    match pinCall c e1 pin with
+    match pinCall c e1 (flushPin c s k) with
     | (e2, false) => ({ s with env := e2, cur := some { k with dests := d1 } }, .fail)
     | (e2, true) =>
-      let pin' : Pin := if pin.opts.rmin < 0 then { pin with allocs := [] } else pin
-      ({ s with env := e2, cur := none, prev := some root,
-                shards := s.shards ++ [{ pin := pin', blocks := k.blocks, allocs := k.allocs, nnodes := nodes.length }] }, .ok)
+      ({ s with env := e2, cur := none, prev := some (rootOf (flushNodes s k)), shards := s.shards ++ [flushRec c s k] }, .ok)
 
 /-- `newShard` -/
 def newShard (c : Cfg) (s : ShSt) : ShSt × Status × Cur :=
@@ -311,25 +319,26 @@ def addToCur (c : Cfg) (s : ShSt) (k : Cur) (b : Blk) : ShSt × Status :=
   | (e, none) => ({ s with env := e, cur := some k1 }, .fail)
   | (e, some d) => ({ s with env := e, cur := some { k1 with dests := d } }, .ok)
 
-/-- `ingestBlock` (the retry after a flush unfolded once: the fresh shard is empty) -/
-def ingest (c : Cfg) (s : ShSt) (b : Blk) : ShSt × Status :=
-  let limit := c.opts.shard
-  let r := match s.cur with
-    | some k => (s, Status.ok, k)
-    | none => newShard c s
-  match r with
-  | (s1, .ok, k) =>
-    if fits k.size b.size limit then addToCur c s1 k b
-    else if k.size == 0 then (s1, .fail)
-    else
-      match flush c s1 k with
-      | (s2, .ok) =>
-        match newShard c s2 with
-        | (s3, .ok, k3) =>
-          if fits k3.size b.size limit then addToCur c s3 k3 b else (s3, .fail)
-        | (s3, st, _) => (s3, st)
-      | (s2, st) => (s2, st)
+/-- `ingestBlock` with no current shard (also the retry after a flush): a new shard, which is
+    empty, so a block that does not fit it is an error -/
+def ingestFresh (c : Cfg) (s : ShSt) (b : Blk) : ShSt × Status :=
+  match newShard c s with
+  | (s1, .ok, k) => if fits k.size b.size c.opts.shard then addToCur c s1 k b else (s1, .fail)
   | (s1, st, _) => (s1, st)
+
+/-- `ingestBlock` with current shard `k` -/
+def ingestIn (c : Cfg) (s : ShSt) (k : Cur) (b : Blk) : ShSt × Status :=
+  if fits k.size b.size c.opts.shard then addToCur c s k b
+  else if k.size == 0 then (s, .fail)
+  else
+    match flush c s k with
+    | (s1, .ok) => ingestFresh c s1 b
+    | (s1, st) => (s1, st)
+
+def ingest (c : Cfg) (s : ShSt) (b : Blk) : ShSt × Status :=
+  match s.cur with
+  | some k => ingestIn c s k b
+  | none => ingestFresh c s b
 
 /-- `DAGService.Add`: blocks seen before are skipped -/
 def shAdd (c : Cfg) (s : ShSt) (b : Blk) : ShSt × Status :=
@@ -354,6 +363,21 @@ def cdagPin (c : Cfg) (cdag root : Nat) : Pin :=
 def metaPin (c : Cfg) (cdag root : Nat) : Pin :=
   { cid := root, type := .metaT, opts := workOpts c, depth := 0, allocs := [], ref := some cdag }
 
+def cdagNodes (s : ShSt) : List Node := makeDAG s.env.named (s.shards.map (·.pin.cid))
+
+/-- after the last flush: store the cluster DAG on the local peer, pin it, pin the meta entry -/
+def finishCdag (c : Cfg) (s1 : ShSt) (root : Nat) : ShSt × Status × Option Nat :=
+  let cdag := rootOf (cdagNodes s1)
+  match putMany c s1.env [0] (cdagNodes s1) with
+  | (e2, _, false) => ({ s1 with env := e2 }, .fail, none)
+  | (e2, _, true) =>
+    match pinCall c e2 (cdagPin c cdag root) with
+    | (e3, false) => ({ s1 with env := e3 }, .fail, none)
+    | (e3, true) =>
+      match pinCall c e3 (metaPin c cdag root) with
+      | (e4, false) => ({ s1 with env := e4 }, .fail, some cdag)
+      | (e4, true) => ({ s1 with env := e4 }, .ok, some cdag)
+
 /-- `Finalize`: flush the last shard, store and pin the cluster DAG, pin the meta entry.
     The third component is the cluster-DAG root when it was pinned. -/
 def shFinalize (c : Cfg) (s : ShSt) (root : Nat) : ShSt × Status × Option Nat :=
@@ -361,20 +385,7 @@ def shFinalize (c : Cfg) (s : ShSt) (root : Nat) : ShSt × Status × Option Nat 
   | none => (s, .fail, none)
   | some k =>
     match flush c s k with
-    | (s1, .ok) =>
-      let nodes := makeDAG s1.env.named (s1.shards.map (·.pin.cid))
-      let cdag := match nodes with
-        | n :: _ => n.id
-        | [] => 0
-      match putMany c s1.env [0] nodes with
-      | (e2, _, false) => ({ s1 with env := e2 }, .fail, none)
-      | (e2, _, true) =>
-        match pinCall c e2 (cdagPin c cdag root) with
-        | (e3, false) => ({ s1 with env := e3 }, .fail, none)
-        | (e3, true) =>
-          match pinCall c e3 (metaPin c cdag root) with
-          | (e4, false) => ({ s1 with env := e4 }, .fail, some cdag)
-          | (e4, true) => ({ s1 with env := e4 }, .ok, some cdag)
+    | (s1, .ok) => finishCdag c s1 root
     | (s1, st) => (s1, st, none)
 
 /-! ### a whole add: every block, then Finalize -/
